@@ -530,7 +530,9 @@ __gmp_doprnt (const struct doprnt_funs_t *funs, void *data,
             break;
 
           case '-':
+            /* as in C, '-' overrides '0': pad with blanks on the right */
             param.justify = DOPRNT_JUSTIFY_LEFT;
+            param.fill = ' ';
             break;
           case '.':
             seen_precision = 1;
@@ -548,6 +550,7 @@ __gmp_doprnt (const struct doprnt_funs_t *funs, void *data,
                   if (n < 0)
                     {
                       param.justify = DOPRNT_JUSTIFY_LEFT;
+                      param.fill = ' ';
                       n = -n;
                     }
                   param.width = n;
@@ -563,8 +566,9 @@ __gmp_doprnt (const struct doprnt_funs_t *funs, void *data,
           case '0':
             if (value == &param.width)
               {
-                /* in width field, set fill */
-                param.fill = '0';
+                /* in width field, set fill, unless '-' was given already */
+                if (param.justify != DOPRNT_JUSTIFY_LEFT)
+                  param.fill = '0';
 
                 /* for right justify, put the fill after any minus sign */
                 if (param.justify == DOPRNT_JUSTIFY_RIGHT)
